@@ -63,13 +63,14 @@ pub fn sample_covariance_online(x: &[f64], y: &[f64]) -> f64 {
     for (i, j) in x.iter().zip(y.iter()) {
         n += 1.;
         let dx = i - meanx;
-        let dy = j - meany;
         meanx += dx / n;
-        meany += dy / n;
+        meany += (j - meany) / n;
+        // deviation of x from the old mean times deviation of y from the updated mean
+        let dy = j - meany;
         c += dx * dy;
     }
 
-    c / n
+    c / (n - 1.)
 }
 
 #[cfg(test)]
